@@ -27,6 +27,10 @@ def run(tier, seed):
     rdir = os.path.join(chk.workdir, "rel")
     vlib.drive(rel, "verify", sets=87, seed=seed, nacc=1, nrand=0, stress=1, out=rdir)
     n2, mism2 = common.validate_f(chk, {87: os.path.join(rdir, "verify_87.ndjson")}, nproc=8, key_of=keyf)
+    # malformed / perturbed signatures through the public API only, on the library built with and without the hooks
+    mal = common.api_traces(chk, rel, "malformed", nbase=4 if tier == "quick" else 40)
+    common.validate_api(chk, {"malformed-%d" % s: p for s, p in mal.items()}, key_of=lambda e: "verify:malformed")
+    common.nohooks_leg(chk, "malformed", nbase=4 if tier == "quick" else 40)
     common.acvp_anchor(chk, 0, 0, 3 if tier == "quick" else 15, seed)
     acc = sum(1 for s in traces for ln in open(traces[s]) if '"res":true' in ln)
     chk.cov["accepting_cases"] = acc
